@@ -729,6 +729,9 @@ func runC19(c *Cfg) {
 	for _, v := range []int{0, -2, 1, 5} {
 		rcs = append(rcs, &RouteCase{Family: "route-twins", Kind: "fallback-option-next-to-a-budget", Val: v, Route: "all"})
 	}
+	for _, rt := range []string{"batch-builder", "batch-option-then-builder", "batch-builder-result-style", "node-builder", "node-option-then-builder"} {
+		rcs = append(rcs, &RouteCase{Family: "route-twins", Kind: "exec-set-again-after-a-run", Val: len(rt) % 3, Route: rt})
+	}
 	for _, via := range []string{"run", "flow"} {
 		rcs = append(rcs, &RouteCase{Family: "route-twins", Kind: "post-after-cancel-in-exec", Route: "option-vs-builder", Via: via})
 	}
